@@ -189,6 +189,48 @@ func c19DestroyChild(ctx *runCtx, spec string) {
 			fail("not-usable", fmt.Sprintf("Get after Put after Destroy = (%q,%v)", g.Value, err))
 			bad = true
 		}
+		// second life: the handle that was opened before the Destroy writes keys that its own member owns (nothing
+		// about this DMap travels over the network), then the same handle destroys the DMap again
+		if !bad {
+			var local []string
+			for i := 0; i < 40 && len(local) < 3; i++ {
+				k := fmt.Sprintf("again%d-%d", round, i)
+				if c.OwnerOf(name, k) == writer {
+					local = append(local, k)
+				}
+			}
+			// remove what the usability check has written first, through the same handle
+			_ = wd.Destroy(bg)
+			for _, k := range local {
+				if err := wd.Put(bg, k, "second-life-"+k); err != nil {
+					fail("not-usable", "Put through the old handle after Destroy: "+err.Error())
+					bad = true
+				}
+			}
+			if !bad && len(local) > 0 {
+				ctx.rep.Count("destroys_again_through_the_old_handle_after_local_writes", 1)
+				if err := wd.Destroy(bg); err != nil {
+					fail("failed|second-destroy", "second Destroy through the same embedded handle: "+err.Error())
+					bad = true
+				}
+				for _, m := range live {
+					for _, kind := range []partitions.Kind{partitions.PRIMARY, partitions.BACKUP} {
+						for _, k := range local {
+							if e, ok := m.V.DMap.VerifEntry(kind, name, k); ok && !bad {
+								fail("entry-left|copy="+kind.String()+"|second-destroy", fmt.Sprintf("the DMap was destroyed, written again through the handle opened before (keys owned by %s itself) and destroyed again through that handle: %s still holds the %s copy of %s = %q", writer.Name, m.Name, kind, k, e.Value))
+								bad = true
+							}
+						}
+					}
+				}
+				for _, k := range local {
+					if g, err := sess.Via("EN").Get(bg, k); paths.Class(err) != "key not found" && !bad && n > 1 {
+						fail("key-readable|second-destroy", fmt.Sprintf("Get(%s) = (%q,%v) after the second Destroy", k, g.Value, err))
+						bad = true
+					}
+				}
+			}
+		}
 		sess.Close()
 		router.Close()
 		var dd olric.DMap
